@@ -365,6 +365,13 @@ def _pure(run, repo, world):
                             n.value) == "dev_inst_map" and \
                     n.attr != "get_type":
                 bad.append("decoder reads dev_inst_map.%s" % n.attr)
+        if cls is not None and hasattr(cls, "mro") and \
+                fn.name not in ("add_to_frame",):
+            # a class-level container that is not one of the registries (a
+            # memo of decoded frames) is shared state all the same
+            from ..seq import shared_state_writes
+            for t_ in shared_state_writes(world, cls, fn):
+                bad.append("write to shared state `%s`" % t_)
         run.ob("R-PURE", q, not bad,
                "decode-path function has a side effect on shared state: %s"
                % "; ".join(sorted(set(bad))), where(mod, fn),
